@@ -453,6 +453,13 @@ def corpus():
     # unassigned block types between the singleton types (6, 7, 10): any number of them is allowed
     out.append(mk_line(OFFSET + 2000, std, [("ADD", _c(8, 0, ("UNK", b"a"))), ("ADD", _c(8, 0, ("UNK", b"a"))), ("ADD", _c(9, 0, ("UNK", b""))),
                                             ("ADD", _c(9, 7, ("UNK", b"b"))), ("ADD", _c(5, 0, ("UNK", b""))), ("ADD", _c(11, 0, ("UNK", b""))), ("ADD", _c(11, 0, ("UNK", b"")))]))
+    # outside the start domain (compared with the model, not judged for Inv): set_payload on a bundle WITHOUT a payload block makes one;
+    # a block whose data is the decoder's DecodingError marker never validates; BundleBuilder refuses a list without payload data at the end
+    nopl = dict(p=dict(P0), cs=[_c(7, 2, ("AGE", 0)), _c(10, 3, ("HOP", 32, 0))])
+    out.append(mk_line(OFFSET + 2000, nopl, [("SETPAYLOAD", b"made")]))
+    out.append(mk_line(OFFSET + 2000, nopl, [("SETPAYLOAD", b"made"), ("ADD", unk), ("SETPAYLOAD", b"again")]))
+    out.append(mk_line(OFFSET + 2000, nopl, [("BUILD",), ("SETPAYLOAD", b"x")]))
+    out.append(mk_line(OFFSET + 2000, dict(p=dict(P0), cs=[_c(7, 2, ("DERR",)), pay]), [("SETCRC", 1)]))
     # builder input in arbitrary order, payload first
     out.append(mk_line(OFFSET + 2000, dict(p=dict(P0), cs=[pay, _c(7, 2, ("AGE", 0)), _c(10, 4, ("HOP", 32, 0)), _c(6, 3, ("PREV", EIDS[2]))]),
                        [("SORT",), ("ADD", unk), ("UPD", EIDS[1], U64)]))
